@@ -932,6 +932,13 @@ def run_px(facts, out, paths=None):
             is_panic = c['path'].startswith(PANIC_PATHS)
             is_unwrap = c['name'] in PANIC_METHODS and (c['path'].startswith('std::option::Option') or
                                                         c['path'].startswith('std::result::Result'))
+            if is_str_offset_op(c):
+                # byte-offset slicing of a str / String panics when the offset is not a char boundary
+                n += 1
+                ok, why, how = discharge_str_offset(facts, b, bb, t, c)
+                out.add('PX', b.path, 'str-offset:' + c['name'], loc_of(t['sp']), ok, why,
+                        {'discharged_by': how} if ok else None)
+                continue
             if not (is_panic or is_unwrap):
                 continue
             n += 1
@@ -945,6 +952,124 @@ def run_px(facts, out, paths=None):
             out.add('PX', b.path, ('unwrap' if is_unwrap else 'panic') + ':' + c['name'], loc_of(t['sp']), ok, why,
                     {'discharged_by': how} if ok else None)
     out.add('PX', facts.crate, 'inventory', 'crate', True, '', {'explicit_panic_sites': n, 'trivial': True}, ordinal=False)
+
+
+STR_OFFSET_METHODS = {'core::str::<impl str>::split_at', 'core::str::<impl str>::split_at_mut',
+                      'std::string::String::truncate', 'std::string::String::insert', 'std::string::String::insert_str',
+                      'std::string::String::remove', 'std::string::String::drain', 'std::string::String::split_off',
+                      'std::string::String::replace_range', 'core::str::<impl str>::is_char_boundary'}
+BOUNDARY_SOURCES = {'find', 'rfind', 'len'}      # str methods whose result is always a char boundary
+OPTION_ADAPTERS = {'map', 'map_or', 'map_or_else', 'and_then', 'is_some_and', 'inspect', 'filter', 'unwrap_or_else'}
+
+
+def is_str_offset_op(c):
+    full = c.get('full', '')
+    if c['path'] in ('std::ops::Index::index', 'std::ops::IndexMut::index_mut') and \
+            (full.startswith('<str as ') or full.startswith('<std::string::String as ')) and 'Range' in full:
+        return True
+    return c['path'] in STR_OFFSET_METHODS and c['name'] != 'is_char_boundary'
+
+
+def _offset_leaves(b, l, depth=0, seen=None):
+    """leaves of the value of local l: ('param', i) | ('call', name, path) | ('const', v) | ('arith',) | ('other',)"""
+    seen = seen if seen is not None else set()
+    if l in seen or depth > 12:
+        return []
+    seen.add(l)
+    if 1 <= l <= b.argc:
+        return [('param', l)]
+    leaves = []
+    for bi, si, kind, s in b.defs.get(l, []):
+        if kind == 'assign':
+            rv = s['rv']
+            k = rv['k']
+            ops = []
+            if k in ('use', 'cast'):
+                ops = [rv['op']]
+            elif k == 'aggr':
+                ops = rv['ops']
+            elif k in ('binop', 'checked_binop', 'unop'):
+                leaves.append(('arith',))
+                continue
+            elif k == 'ref':
+                leaves.extend(_offset_leaves(b, rv['pl']['l'], depth + 1, seen))
+                continue
+            else:
+                leaves.append(('other',))
+                continue
+            for o in ops:
+                pl = op_place(o)
+                if pl is not None:
+                    leaves.extend(_offset_leaves(b, pl['l'], depth + 1, seen))
+                elif o['k'] == 'const':
+                    leaves.append(('const', o.get('v', o.get('int'))))
+        else:
+            c = callee_of(s)
+            leaves.append(('call', c['name'] if c else '?', c['path'] if c else '?', s))
+    return leaves
+
+
+def discharge_str_offset(facts, b, bb, t, c):
+    """accepted: every offset is the result of str::find / rfind / len (always a char boundary) --
+    directly, through Option unwrapping, or as the parameter of a closure handed to an Option
+    adapter whose receiver is such a result -- or the constant 0"""
+    why = ('byte-offset `%s` on a str whose offset is not proven to be a char boundary (accepted: results of '
+           'find/rfind/len, 0): panics on multi-byte text') % c['name']
+    bad = []
+    for a in t['args'][1:]:
+        pl = op_place(a)
+        if pl is None:
+            if a['k'] == 'const' and a.get('v', a.get('int')) in (0, '0'):
+                continue
+            bad.append('constant offset')
+            continue
+        for lf in _offset_leaves(b, pl['l']):
+            if lf[0] == 'const':
+                if lf[1] not in (0, '0', None):
+                    bad.append('constant offset %s' % (lf[1],))
+            elif lf[0] == 'call':
+                if not (lf[1] in BOUNDARY_SOURCES and lf[2].startswith('core::str::<impl str>')) and lf[1] not in ('branch', 'unwrap', 'expect', 'unwrap_or', 'unwrap_or_default'):
+                    bad.append('offset computed by `%s`' % lf[1])
+                elif lf[1] in ('branch', 'unwrap', 'expect', 'unwrap_or', 'unwrap_or_default'):
+                    l0 = op_local(lf[3]['args'][0]) if lf[3]['args'] else None
+                    inner = _offset_leaves(b, l0) if l0 is not None else [('other',)]
+                    for lf2 in inner:
+                        if not (lf2[0] == 'call' and lf2[1] in BOUNDARY_SOURCES and lf2[2].startswith('core::str::<impl str>')):
+                            bad.append('offset from `%s`' % (lf2[1] if len(lf2) > 1 else lf2[0]))
+            elif lf[0] == 'param':
+                if not _closure_param_is_boundary(facts, b, lf[1]):
+                    bad.append('offset is parameter #%d, not known to be a char boundary' % lf[1])
+            else:
+                bad.append('offset involves %s' % lf[0])
+    if bad:
+        return False, why + ' [' + '; '.join(sorted(set(bad))) + ']', None
+    return True, '', 'offsets are results of str::find/rfind/len (char boundaries) or 0'
+
+
+def _closure_param_is_boundary(facts, b, pidx):
+    """b is a closure whose parameter #pidx (>= 2) receives the payload of an Option produced by
+    str::find / rfind in the parent function"""
+    if '{closure' not in b.path or pidx < 2:
+        return False
+    parent = facts.bodies.get(b.path.rsplit('::{closure', 1)[0])
+    if parent is None:
+        return False
+    for bi, blk in enumerate(parent.blocks):
+        for s in blk['st']:
+            if s['k'] == 'assign' and s['rv']['k'] == 'aggr' and s['rv'].get('closure') == b.path:
+                cl = s['pl']['l']
+                for bb2, t2 in parent.calls():
+                    ls = [op_local(a) for a in t2['args']]
+                    if cl not in ls:
+                        continue
+                    c2 = callee_of(t2)
+                    if not c2 or c2['name'] not in OPTION_ADAPTERS or not c2['path'].startswith('std::option::Option'):
+                        return False
+                    r = ls[0]
+                    lv = _offset_leaves(parent, r) if r is not None else []
+                    return bool(lv) and all(x[0] == 'call' and x[1] in ('find', 'rfind') and
+                                            x[2].startswith('core::str::<impl str>') for x in lv)
+    return False
 
 
 def discharge_panic(facts, b, bb, t, c, is_unwrap):
